@@ -300,6 +300,7 @@ def run(rep, tier, seed):
     max_saves = 2 if tier == 'quick' else 3
     cap = 2000 if tier == 'quick' else 120000
     rnd = random.Random(seed + 15)
+    all_exh = True
     with tlc.Scratch() as s:
         for bad, kw, inv in (('meta-first put order', dict(put_order='meta-first'), 'DiscoverableIsFetchable'),
                              ('delete the whole key prefix on close', dict(delete_whole=True), 'Confined')):
@@ -322,8 +323,8 @@ def run(rep, tier, seed):
             total, _ = g.count_paths()
             if total <= cap:
                 paths = list(g.iter_all_paths())
-                rep.exhaustive = True
             else:
+                all_exh = False
                 paths = g.edge_cover_paths(rnd)
                 if len(paths) > 2 * cap:
                     rnd.shuffle(paths)
@@ -334,7 +335,6 @@ def run(rep, tier, seed):
                     if p not in seen:
                         seen.add(p)
                         paths.append(list(p))
-                rep.exhaustive = False
             rep.extra.setdefault('generating', []).append({'combination': name, 'cassettes': {k: list(v) for k, v in combo.items()},
                                                            'graph_states': len(g.states), 'complete_paths': total,
                                                            'paths_replayed': len(paths)})
@@ -363,6 +363,7 @@ def run(rep, tier, seed):
                                           replay={'kind': 's3bucket', 'combination': nm, 'behaviour': rr['beh_json'],
                                                   'summary': rr['summary']})
             _G[name] = None
+    rep.exhaustive = all_exh
 
 
 def replay(rep, body):
